@@ -505,4 +505,284 @@ theorem tokens_render (k : Str) (rest : Pos) (hp : PlainPos (.key k :: rest)) :
 
 theorem tokens_root : tokens slash = [] := by decide
 
+
+/-! ## every value returned is a node of the tree searched -/
+
+/-- `v` occurs in `t`: it is `t` itself, an element of a list that occurs in `t`, or the value of
+an entry of a dictionary that occurs in `t` -/
+inductive Sub (t : Val) : Val → Prop
+  | refl : Sub t t
+  | elem {c : Cls} {xs : List Val} {x : Val} : Sub t (.list c xs) → x ∈ xs → Sub t x
+  | entry {c : Cls} {kvs : List (Str × Val)} {k : Str} {x : Val} : Sub t (.dict c kvs) → (k, x) ∈ kvs → Sub t x
+
+def AllSub (t : Val) (l : List (Str × Val)) : Prop := ∀ kv ∈ l, Sub t kv.2
+
+theorem lookup_mem {k : Str} {l : List (Str × Val)} {v : Val} (h : lookup k l = some v) : ∃ k', (k', v) ∈ l := by
+  induction l with
+  | nil => simp [lookup] at h
+  | cons kv r ih =>
+    obtain ⟨k', x⟩ := kv
+    simp only [lookup] at h
+    split at h
+    · cases h; exact ⟨k', by simp⟩
+    · obtain ⟨k'', hm⟩ := ih h; exact ⟨k'', by simp [hm]⟩
+
+theorem mem_kvSet {k : Str} {v : Val} {l : List (Str × Val)} {kv : Str × Val} (h : kv ∈ kvSet k v l) :
+    kv.2 = v ∨ kv ∈ l := by
+  induction l with
+  | nil => simp [kvSet] at h; subst h; exact Or.inl rfl
+  | cons e r ih =>
+    obtain ⟨k', x⟩ := e
+    simp only [kvSet] at h
+    split at h
+    · simp only [List.mem_cons] at h
+      rcases h with h | h
+      · subst h; exact Or.inl rfl
+      · exact Or.inr (by simp [h])
+    · simp only [List.mem_cons] at h
+      rcases h with h | h
+      · exact Or.inr (by simp [h])
+      · rcases ih h with h' | h'
+        · exact Or.inl h'
+        · exact Or.inr (by simp [h'])
+
+theorem AllSub.push {t : Val} {ps : PS} (h : AllSub t ps) (fl : FL) {node : Val} (hn : Sub t node) :
+    AllSub t (push ps fl node) := by
+  intro kv hkv
+  rcases mem_kvSet hkv with h' | h'
+  · rw [h']; exact hn
+  · exact h kv h'
+
+theorem AllSub.upd {t : Val} {acc : Found} (h : AllSub t acc) {f : Option Found}
+    (hf : ∀ f', f = some f' → AllSub t f') : AllSub t (upd acc f) := by
+  cases f with
+  | none => exact h
+  | some l =>
+    have hl := hf l rfl
+    simp only [FindAll.upd]
+    clear hf
+    induction l generalizing acc with
+    | nil => exact h
+    | cons e r ih =>
+      simp only [List.foldl_cons]
+      apply ih
+      · intro kv hkv
+        rcases mem_kvSet hkv with h' | h'
+        · rw [h']; exact hl e (by simp)
+        · exact h kv h'
+      · intro kv hkv; exact hl kv (by simp [hkv])
+
+theorem starLoop_sub {t : Val} (call : Val → FL → Out) (re : Bool) (last : Str) :
+    ∀ (xs : List Val), (∀ c ∈ xs, ∀ cur f, (call c cur).res = .ok (some f) → AllSub t f) →
+      ∀ (i : Nat) (cur : FL) (acc : Found), AllSub t acc →
+      ∀ f, (starLoop call re last i xs cur acc).1 = .ok (some f) → AllSub t f := by
+  intro xs
+  induction xs with
+  | nil => intro _ i cur acc ha f h; simp only [starLoop] at h; cases h; exact ha
+  | cons c cs ih =>
+    intro hc i cur acc ha f h
+    simp only [starLoop] at h
+    split at h
+    · split at h
+      · cases h
+      · rename_i f1 hres
+        exact ih (fun c' hc' => hc c' (by simp [hc'])) _ _ _
+          (ha.upd (fun f' hf' => hc c (by simp) _ f' (by rw [hres, hf']))) f h
+    · cases re <;> simp [raiseOr] at h
+
+theorem keysLoop_sub {t : Val} (call : Str → Val → Out) :
+    ∀ (kvs : List (Str × Val)), (∀ kc ∈ kvs, ∀ f, (call kc.1 kc.2).res = .ok (some f) → AllSub t f) →
+      ∀ (acc : Found), AllSub t acc →
+      ∀ f, keysLoop call kvs acc = .ok (some f) → AllSub t f := by
+  intro kvs
+  induction kvs with
+  | nil => intro _ acc ha f h; simp only [keysLoop] at h; cases h; exact ha
+  | cons e r ih =>
+    obtain ⟨k, c⟩ := e
+    intro hc acc ha f h
+    simp only [keysLoop] at h
+    split at h
+    · split at h
+      · cases h
+      · rename_i f1 hres
+        exact ih (fun kc hkc => hc kc (by simp [hkc])) _
+          (ha.upd (fun f' hf' => hc (k, c) (by simp) f' (by rw [hres, hf']))) f h
+    · exact ih (fun kc hkc => hc kc (by simp [hkc])) _ ha f h
+
+/-- what the function used for the recursive calls must satisfy -/
+def RecSub (t : Val) (rec : Val → List Str → FL → PS → Out) : Prop :=
+  ∀ n toks fl ps, Sub t n → AllSub t ps → ∀ f, (rec n toks fl ps).res = .ok (some f) → AllSub t f
+
+theorem step_sub {t : Val} {rec : Val → List Str → FL → PS → Out} (hr : RecSub t rec) (hp : PsInv rec) (re : Bool)
+    (node : Val) (toks : List Str) (fl : FL) (ps : PS) (hn : Sub t node) (hps : AllSub t ps)
+    (f : Found) (h : (step rec re node toks fl ps).res = .ok (some f)) : AllSub t f := by
+  unfold step at h
+  split at h
+  · simp only [Except.ok.injEq, Option.some.injEq] at h
+    subst h
+    intro kv hkv; simp only [List.mem_singleton] at hkv; subst hkv; exact hn
+  · split at h
+    · -- '..'
+      unfold stepUp at h
+      split at h
+      · cases re <;> simp [raiseOr] at h
+      · rename_i target hl
+        split at hl
+        · cases hl
+        · obtain ⟨k', hm⟩ := lookup_mem hl
+          exact hr _ _ _ _ (hps _ hm) hps f h
+    · cases h
+    · -- text()
+      unfold stepText at h
+      split at h
+      · split at h
+        · cases h
+        · split at h
+          · cases h
+          · split at h
+            · cases h
+            · exact hr _ _ _ _ hn (hps.push _ hn) f h
+      · cases h
+    · -- index
+      unfold stepIdx at h
+      split at h
+      · split at h
+        · cases re <;> simp [raiseOr] at h
+        · split at h
+          · cases h
+          · split at h
+            · rename_i hx _
+              exact hr _ _ _ _ (hn.elem (List.mem_of_getElem? hx)) (hps.push _ hn) f h
+            · cases re <;> simp [raiseOr] at h
+      · split at h <;> cases re <;> simp [raiseOr] at h
+      · cases h
+    · -- [*]
+      unfold stepStar at h
+      split at h
+      · rename_i c xs
+        simp only at h
+        refine starLoop_sub _ re _ xs ?_ 0 _ [] (by intro kv hkv; cases hkv) f h
+        intro c hc cur f' hf'
+        exact hr _ _ _ _ (hn.elem hc) (hps.push _ hn) f' hf'
+      · cases re <;> simp [raiseOr] at h
+      · cases h
+    · -- name
+      unfold stepName at h
+      split at h
+      · exact hr _ _ _ _ hn hps f h
+      · rename_i c kvs
+        split at h
+        · cases re <;> simp [raiseOr] at h
+        · split at h
+          · simp only at h
+            split at h
+            · cases h
+            · rename_i f1 hres
+              simp only at h
+              have h1 : AllSub t (upd [] f1) :=
+                AllSub.upd (by intro kv hkv; cases hkv) (fun f' hf' => hr _ _ _ _ hn hps f' (by rw [hres, hf']))
+              refine keysLoop_sub _ kvs ?_ _ h1 f h
+              intro kc hkc f' hf'
+              exact hr _ _ _ _ (hn.entry (k := kc.1) hkc) (AllSub.push (by rw [hp]; exact hps) _ hn) f' hf'
+          · split at h
+            · rename_i x hl
+              obtain ⟨k', hm⟩ := lookup_mem hl
+              exact hr _ _ _ _ (hn.entry hm) (hps.push _ hn) f h
+            · cases h
+      · cases h
+
+theorem fa_sub (t : Val) (re : Bool) : ∀ fuel, RecSub t (fa re fuel) := by
+  intro fuel
+  induction fuel with
+  | zero => intro n toks fl ps _ _ f h; cases h
+  | succ k ih =>
+    intro n toks fl ps hn hps f h
+    exact step_sub ih (fun n t f p => fa_ps re k n t f p) re n toks fl ps hn hps f h
+
+
+/-! ## a call changes at most the last element of the list object it received -/
+
+def FlDL (rec : Val → List Str → FL → PS → Out) : Prop := ∀ n t f p, (rec n t f p).fl.dropLast = f.dropLast
+
+theorem setLast_dropLast (fl : FL) (s : Str) : (setLast fl s).dropLast = fl.dropLast := by
+  simp [setLast]
+
+theorem starLoop_dl (call : Val → FL → Out) (re : Bool) (last : Str)
+    (hc : ∀ c cur, (call c cur).fl.dropLast = cur.dropLast) :
+    ∀ (xs : List Val) (i : Nat) (cur : FL) (acc : Found),
+      (starLoop call re last i xs cur acc).2.dropLast = cur.dropLast := by
+  intro xs
+  induction xs with
+  | nil => intros; rfl
+  | cons c cs ih =>
+    intro i cur acc
+    simp only [starLoop]
+    split
+    · split
+      · simp only [hc, setLast_dropLast]
+      · rw [ih, hc, setLast_dropLast]
+    · rfl
+
+section
+variable {rec : Val → List Str → FL → PS → Out} (re : Bool)
+
+theorem step_dl (h : FlDL rec) (node : Val) (toks : List Str) (fl : FL) (ps : PS) :
+    (step rec re node toks fl ps).fl.dropLast = fl.dropLast := by
+  unfold step
+  split
+  · rfl
+  · split
+    · unfold stepUp; split <;> rfl
+    · rfl
+    · unfold stepText
+      repeat' split
+      all_goals first | rfl | (simp only [h _ _ _ _, setLast_dropLast])
+    · unfold stepIdx
+      repeat' split
+      all_goals first | rfl | (simp only [h _ _ _ _, setLast_dropLast]; done) | (simp only [h _ _ _ _, setLast_dropLast]; simp_all)
+    · unfold stepStar
+      repeat' split
+      all_goals first | rfl | (simp only [starLoop_dl _ re _ (fun c cur => h _ _ _ _)]; done) | (simp only [starLoop_dl _ re _ (fun c cur => h _ _ _ _)]; simp_all)
+    · unfold stepName
+      repeat' split
+      all_goals first | rfl | exact h _ _ _ _ | (dsimp only; split <;> exact h _ _ _ _)
+end
+
+theorem fa_dl (re : Bool) : ∀ (fuel : Nat), FlDL (fa re fuel) := by
+  intro fuel
+  induction fuel with
+  | zero => intro _ _ _ _; rfl
+  | succ k ih => intro n t f p; exact step_dl re ih n t f p
+
+/-! ## fan-out over a list of containers -/
+
+/-- merge the outcomes of the elements in order: the first exception wins -/
+def mergeAll : List (PyM (Option Found)) → Found → PyM (Option Found)
+  | [], acc => .ok (some acc)
+  | .error e :: _, _ => .error e
+  | .ok f :: rest, acc => mergeAll rest (upd acc f)
+
+/-- the outcomes of the elements `i, i+1, …`, each searched with the path `base ++ [last ++ "[i]"]` -/
+def fanCalls (call : Val → FL → Out) (base : FL) (last : Str) : Nat → List Val → List (PyM (Option Found))
+  | _, [] => []
+  | i, c :: cs => (call c (base ++ [last ++ bracket (natRepr i)])).res :: fanCalls call base last (i + 1) cs
+
+theorem starLoop_fan (call : Val → FL → Out) (re : Bool) (last : Str)
+    (hc : ∀ c cur, (call c cur).fl.dropLast = cur.dropLast) :
+    ∀ (xs : List Val), (∀ c ∈ xs, isContainer c = true) → ∀ (i : Nat) (cur : FL) (acc : Found),
+      (starLoop call re last i xs cur acc).1 = mergeAll (fanCalls call cur.dropLast last i xs) acc := by
+  intro xs
+  induction xs with
+  | nil => intros; rfl
+  | cons c cs ih =>
+    intro hall i cur acc
+    have hcc : isContainer c = true := hall c (by simp)
+    simp only [starLoop, hcc, if_true, fanCalls, setLast]
+    cases hres : (call c (cur.dropLast ++ [last ++ bracket (natRepr i)])).res with
+    | error e => simp [mergeAll]
+    | ok f =>
+      simp only [mergeAll]
+      rw [ih (fun c' hc' => hall c' (by simp [hc'])), hc]
+      simp
+
 end N0.FindAll
